@@ -75,4 +75,14 @@ CHECKS["C09"] = {
     "note": "Trusted: recover() in the driver as the panic detector. Exhaustive only within the bounds; longer histories are sampled.",
     "technique": MBT,
 }
+CHECKS["C10"] = {
+    "text": "In the specification a render's output is a function of the core table's content, the format and the decoration only; the bounded model MCWrap enumerates the paths -- every creator (core New, each sub-package's New, auto.New of styles) x wrapper nestings up to depth 2-3 x every entry point (wrapper methods Render/RenderTo, package functions on the table or on a wrapper, auto.Render with style variants) -- and each path plus random contents/paths is executed on the real library; for every render the driver rebuilds the same content on a core table, renders it through the format's own wrapper and logs byte equality (relational, never against model-predicted bytes), and TLC additionally validates the output structurally with the format's relation (C03-C08).",
+    "note": "Trusted: the driver's replay of the build operations onto a fresh core table; Go's == for byte equality.",
+    "technique": MBT,
+}
+CHECKS["C14"] = {
+    "text": "Render is modelled as leaving the table state unchanged (TLC checks the action property RenderPure on all bounded sequences of wraps and renders); sequences of up to 3 renders over all formats/decorations through the same, a fresh or a nested wrapper (exhaustive in the bounded model) and random sequences of 3-12 renders are executed on the real library; after every step TLC compares the full grid, text, property and error projections with the unchanged model state, and the driver logs for every render whether its bytes equal the first render of that (content, format, decoration, options).",
+    "note": "Trusted: first-output bookkeeping in the driver. User callbacks are not registered in this family (excluded by the statement).",
+    "technique": MBT,
+}
 NOT_APPLICABLE = {}
